@@ -109,7 +109,7 @@ def run(v, tier, seed, replay):
             raise Infra("no structured case in replay file " + replay)
         return replay_cases(v, exe, rc_cases, [], seed, [2, 3, 4, 5, 6], "exploration")
     os.makedirs(vlib.BUILD, exist_ok=True)
-    cfg = os.path.join(vlib.BUILD, "C12_cat.cfg")
+    cfg = os.path.join(vlib.cfgdir(), "C12_cat.cfg")
     with open(cfg, "w") as f:
         f.write(CFG_T.format(dims="{" + ",".join(map(str, dims)) + "}", tier=0 if quick else 1))
     res = vlib.tlc("Eigen", cfg, workers=8, timeout=1500, keep_out=False)
